@@ -81,18 +81,34 @@ def gen_range(rng, p, scale, kind=None):
     return [a, b]
 
 
+INT_FORMS = ("ilist", "i64", "i32", "u16")
+FLOAT_FORMS = ("f64", "f64", "list", "f32")
+
+
 def gen_fit_data(rng, p, scale):
     nd = rng.randint(1, 3)
     dgms = []
     b0 = rng.choice((0.0, -1.0, 0.2, 0.5)) * scale
+    # a third of the fits hand over a mixed bag of representations (integer arrays / nested int lists next to float
+    # arrays): only where integer coordinates give a sane number of pixels
+    mixed = p >= 0.05 and scale >= 1.0 and rng.random() < 0.4
+    forms = []
     for _ in range(nd):
         n = rng.randint(1, 5)
         d = []
+        integer = mixed and rng.random() < 0.5
         for _ in range(n):
             b = b0 + rng.randint(0, 10) * p * rng.choice((1.0, 1.0, 0.5, 1.3)) + rng.choice((0.0, 0.0, rng.random() * p))
             pers = rng.randint(0, 8) * p * rng.choice((1.0, 1.0, 0.7)) + rng.choice((0.0, rng.random() * p))
+            if integer:
+                b = int(math.floor(b0)) + rng.randint(0, 9)
+                pers = rng.randint(0, 7)
             d.append([b, b + pers])
         dgms.append(d)
+        if integer:
+            forms.append(rng.choice(INT_FORMS if all(q[0] >= 0 for q in d) else INT_FORMS[:3]))
+        else:
+            forms.append(rng.choice(FLOAT_FORMS) if mixed or rng.random() < 0.3 else "f64")
     # guarantee positive extent in birth and persistence
     flat = [q for d in dgms for q in d]
     def ext(f):
@@ -102,9 +118,39 @@ def gen_fit_data(rng, p, scale):
     if ext(lambda q: q[0]) <= 0 or ext(lambda q: q[1]) <= 0 or ext(lambda q: q[1] - q[0]) <= 0:
         hi_b = max(q[0] for q in flat)
         hi_p = max(q[1] - q[0] for q in flat)
-        dgms[0].append([hi_b + 2 * p, hi_b + 2 * p + hi_p + 3 * p])
+        q = [hi_b + 2 * p, hi_b + 2 * p + hi_p + 3 * p]
+        if forms[0] in INT_FORMS:
+            q = [int(math.ceil(q[0])) + 1, int(math.ceil(q[0])) + 1 + int(math.ceil(hi_p + 3 * p)) + 1]
+        dgms[0].append(q)
     single = nd == 1 and rng.random() < 0.5
-    return {"dgms": dgms, "single": single, "skew": rng.random() < 0.7}
+    return {"dgms": dgms, "forms": forms, "single": single, "skew": rng.random() < 0.7}
+
+
+def materialize_fit(d):
+    """the diagrams as handed to fit, and the float64 values they denote (the oracle's view)"""
+    forms = d.get("forms") or ["f64"] * len(d["dgms"])
+    if len(forms) != len(d["dgms"]):
+        raise InvalidCase("forms")
+    given, vals, atol = [], [], 0.0
+    for x, f in zip(d["dgms"], forms):
+        a = np.array(x, dtype=float).reshape(-1, 2)
+        if f in INT_FORMS:
+            if not np.all(a == np.round(a)) or (f == "u16" and (a.min() < 0 or a.max() > 60000)) or np.abs(a).max() > 2 ** 30:
+                raise InvalidCase("integer form needs integer coordinates")
+            g = [[int(v) for v in row] for row in a] if f == "ilist" else a.astype({"i64": np.int64, "i32": np.int32, "u16": np.uint16}[f])
+        elif f == "f32":
+            g = a.astype(np.float32)
+            a = g.astype(float)
+            atol = max(atol, 2.5e-7 * float(np.abs(a).max()))
+        elif f == "list":
+            g = a.tolist()
+        elif f == "f64":
+            g = a
+        else:
+            raise InvalidCase("form")
+        given.append(g)
+        vals.append(a)
+    return given, vals, atol
 
 
 def reset_world():
@@ -232,30 +278,33 @@ def edge_probes(im, site, discr, sched, n_interior, opi):
     return n_probes
 
 
-def check_state(im, site, discr, sched, n_interior, opi, request):
+def check_state(im, site, discr, sched, n_interior, opi, request, atol=0.0):
     """request = dict(birth=(lo,hi) or None, pers=(lo,hi) or None): what the last
-    operation asked the ranges to contain."""
+    operation asked the ranges to contain.  atol: non-zero for an imager that was fitted on single-precision
+    diagrams (its range endpoints are then single-precision numbers): slack of a few float32 ulps of the geometry."""
     ps = float(im.pixel_size)
     br = tuple(float(x) for x in im.birth_range)
     pr = tuple(float(x) for x in im.pers_range)
     w, h = float(im.width), float(im.height)
     res = im.resolution
     state = "birth_range=%r pers_range=%r pixel_size=%r width=%r height=%r resolution=%r" % (br, pr, ps, w, h, tuple(res))
+    if atol:
+        atol = 2.5e-7 * max(abs(v) for v in br + pr + (ps, w, h))
     if not (len(res) == 2 and all(isinstance(r, (int, np.integer)) and r >= 1 for r in res)):
         raise Violation("resolution-positive-integers", site, discr, state, opi)
     for nm, val, rng_ in (("width", w, br), ("height", h, pr)):
         ext = rng_[1] - rng_[0]
-        if not abs(val - ext) <= _tol(val, ext, rng_[0], rng_[1], ps):
+        if not abs(val - ext) <= _tol(val, ext, rng_[0], rng_[1], ps) + 2 * atol:
             raise Violation("%s==extent-of-range" % nm, site, discr, "%s=%r but reported range spans %r; %s" % (nm, val, ext, state), opi)
     for nm, val, r in (("width", w, res[0]), ("height", h, res[1])):
-        if not abs(r * ps - val) <= _tol(val, ps) * max(1, r):
+        if not abs(r * ps - val) <= _tol(val, ps) * max(1, r) + 2 * atol:
             raise Violation("resolution*pixel_size==%s" % nm, site, discr,
                             "%d * %r = %r but %s = %r; %s" % (r, ps, r * ps, nm, val, state), opi)
     for nm, got, req in (("birth", br, request.get("birth")), ("pers", pr, request.get("pers"))):
         if req is None:
             continue
         lo, hi = float(req[0]), float(req[1])
-        t = _tol(lo, hi, ps, got[0], got[1])
+        t = _tol(lo, hi, ps, got[0], got[1]) + 2 * atol
         if not (got[0] <= lo + t and got[1] >= hi - t):
             raise Violation("covers-request", site, discr + "/" + nm,
                             "%s range %r does not contain the requested %r; %s" % (nm, got, (lo, hi), state), opi)
@@ -298,6 +347,9 @@ def run_case(case, sched):
     hard = 0
     skipped = 0
     kinds = set()
+    prec = {}
+    forms_used = set()
+    mixed_fits = 0
     from sim.sched import interleave
     for opi, op in interleave(sched, ops, "inst", case["config"].get("interleave", "as-listed")):
         k = op.get("inst")
@@ -359,9 +411,9 @@ def run_case(case, sched):
                     request = {"birth" if which[0] == "b" else "pers": tuple(map(float, cur))}
                 elif kind == "fit":
                     d = op["data"]
-                    dg = [np.array(x, dtype=float).reshape(-1, 2) for x in d["dgms"]]
-                    if not dg or any(len(x) == 0 for x in dg):
+                    if not d["dgms"] or any(len(x) == 0 for x in d["dgms"]):
                         raise InvalidCase("empty fit data")
+                    given, dg, atol = materialize_fit(d)
                     allp = np.vstack(dg)
                     if d.get("skew", True):
                         allp = np.column_stack([allp[:, 0], allp[:, 1] - allp[:, 0]])
@@ -374,8 +426,16 @@ def run_case(case, sched):
                     discr = "/".join(sorted({classify(hi[0] - lo[0], float(im.pixel_size)),
                                              classify(hi[1] - lo[1], float(im.pixel_size))}))
                     site = "fit"
-                    arg = dg[0] if d.get("single") and len(dg) == 1 else dg
+                    arg = given[0] if d.get("single") and len(given) == 1 else given
+                    before_digest = repr(given)
                     im.fit(arg, skew=bool(d.get("skew", True)))
+                    if repr(given) != before_digest:
+                        raise Violation("input-untouched", "fit", "/".join(sorted(set(d.get("forms") or ["f64"]))),
+                                        "fit modified the diagrams handed to it", opi)
+                    prec[k] = max(prec.get(k, 0.0), 1.0 if atol else 0.0)
+                    forms_used.update(d.get("forms") or ["f64"])
+                    if len(set(type(g).__name__ + str(getattr(g, "dtype", "")) for g in given)) > 1:
+                        mixed_fits += 1
                     request = {"birth": (float(lo[0]), float(hi[0])), "pers": (float(lo[1]), float(hi[1]))}
                 else:
                     raise InvalidCase("unknown op")
@@ -394,9 +454,9 @@ def run_case(case, sched):
         for kk, im2 in ims.items():
             try:
                 if kk == k:
-                    n_probes += check_state(im2, site, discr, sched, n_interior, opi, request)
+                    n_probes += check_state(im2, site, discr, sched, n_interior, opi, request, prec.get(kk, 0.0))
                 else:
-                    n_probes += check_state(im2, "bystander-after-" + site, discr, sched, 0, opi, {})
+                    n_probes += check_state(im2, "bystander-after-" + site, discr, sched, 0, opi, {}, prec.get(kk, 0.0))
             except (InvalidCase, Violation):
                 raise
             except Exception as e:
@@ -409,7 +469,8 @@ def run_case(case, sched):
         "probes": {"edge_probe_transforms": n_probes, "inexact_or_nonmultiple_requests": hard,
                    "instances_ge_2": int(len(ims) >= 2), "history_has_fit": int("fit" in kinds),
                    "history_has_pixel_change": int("pixel_size=" in kinds), "history_has_reassign": int("reassign" in kinds),
-                   "history_len_ge_8": int(len(ops) >= 8),
+                   "history_len_ge_8": int(len(ops) >= 8), "fits_on_mixed_representations": mixed_fits,
+                   **{"fit_form_" + f: 1 for f in sorted(forms_used - {"f64"})},
                    "ops_skipped_over_400_pixels": skipped},
         "faults": {"interleaved_instances": int(len(ims) >= 2), "idempotent_reassignments": sum(1 for o in ops if o["op"] == "reassign")},
     }
@@ -442,10 +503,16 @@ def shrink_candidates(case):
                 yield c
         if o["op"] == "fit":
             d = o["data"]
+            if any(f != "f64" for f in d.get("forms") or []):
+                c = copy.deepcopy(case)
+                c["ops"][i]["data"]["forms"] = ["f64"] * len(d["dgms"])
+                yield c
             for j in range(len(d["dgms"])):
                 if len(d["dgms"]) > 1:
                     c = copy.deepcopy(case)
                     del c["ops"][i]["data"]["dgms"][j]
+                    if c["ops"][i]["data"].get("forms"):
+                        del c["ops"][i]["data"]["forms"][j]
                     yield c
                 for q in range(len(d["dgms"][j])):
                     if len(d["dgms"][j]) > 1:
